@@ -468,8 +468,10 @@ def run(ctx, repo, tier):
     # ------------------------------------------------------------ inherited: folded rotation block
     check_fold(ctx, repo, "C14")
     # ------------------------------------------------------------ inherited: cell order and value of the saved volumes (C02)
-    from .C02 import volumes_check
+    from .C02 import volumes_check, cartesian_parallel
     volumes_check(ctx, repo, "C14")
+    # Cartesian position mode: the face areas replace the data of the (symmetric) adjacency matrix entry by entry
+    cartesian_parallel(ctx, repo, "C14")
     # ------------------------------------------------------------ inherited: the SQRA kernel itself (C01) on matrices as loaded from .npz
     # (detailed balance w.r.t. V*exp(-E/RT) and zero row sums are properties of that formula; an algebraically equal rewrite that
     #  exponentiates single-cell energies is rejected there because it is not evaluable for large |E|)
